@@ -63,28 +63,76 @@ func readLocalNames() []string {
 		core.Fatalf("cannot read localhost aliases: %v", err)
 	}
 	hostsAliases.own, hostsAliases.pkg = own, pkg
-	return append([]string{"localhost", "0.0.0.0", "::"}, own...)
+	return (&hostsView{own: own}).localNames()
 }
 
-// aliasTargets are the hosts-file aliases usable as request targets (plain host names other than the
-// built-in "localhost").
-func aliasTargets() []string {
+// hostsView is a hosts file as a case sees it: the names it gives to loopback addresses (as spelt) and the
+// names only other records carry. The zero text is the machine's own file.
+type hostsView struct {
+	text  string
+	own   []string
+	other []string
+}
+
+func machineView() *hostsView {
 	localNames()
-	var out []string
-	for _, a := range hostsAliases.own {
-		ok := a != "" && strings.ToLower(a) != "localhost"
-		for i := 0; i < len(a); i++ {
-			c := a[i]
-			if !(c >= 'a' && c <= 'z' || c >= 'A' && c <= 'Z' || c >= '0' && c <= '9' || c == '-' || c == '.') {
-				ok = false
-			}
+	return &hostsView{own: hostsAliases.own}
+}
+
+// viewOf reads a generated hosts file with the harness's own reader ("" = the machine's file).
+func viewOf(text string) *hostsView {
+	if text == "" {
+		return machineView()
+	}
+	v := &hostsView{text: text}
+	v.own, v.other = reqmodel.LoopbackNames(reqmodel.ParseHosts(text))
+	return v
+}
+
+// localNames is hp.localhost as NewHTTPProxy composes it: the built-in names, then the aliases lower-cased.
+func (v *hostsView) localNames() []string {
+	out := []string{"localhost", "0.0.0.0", "::"}
+	for _, a := range v.own {
+		out = append(out, strings.ToLower(a))
+	}
+	return out
+}
+
+func usableAsTarget(a string) bool {
+	ok := a != "" && strings.ToLower(a) != "localhost"
+	for i := 0; i < len(a); i++ {
+		c := a[i]
+		if !(c >= 'a' && c <= 'z' || c >= 'A' && c <= 'Z' || c >= '0' && c <= '9' || c == '-' || c == '.') {
+			ok = false
 		}
-		if ok {
+	}
+	return ok
+}
+
+// aliasTargets are the aliases usable as request targets; otherTargets the names of other records.
+func (v *hostsView) aliasTargets() []string {
+	var out []string
+	for _, a := range v.own {
+		if usableAsTarget(a) {
 			out = append(out, a)
 		}
 	}
 	return out
 }
+
+func (v *hostsView) otherTargets() []string {
+	var out []string
+	for _, a := range v.other {
+		if usableAsTarget(a) {
+			out = append(out, a)
+		}
+	}
+	return out
+}
+
+// aliasTargets are the hosts-file aliases usable as request targets (plain host names other than the
+// built-in "localhost").
+func aliasTargets() []string { return machineView().aliasTargets() }
 
 func hostnameOf(authority string) (string, bool) {
 	u, err := url.Parse("http://" + authority)
@@ -335,7 +383,11 @@ func evaluate(ctx *core.Ctx, h *hops, fc *reqmodel.FullCfg, one oneTarget, t *ta
 			Path: t.path(), Query: t.Query, Fields: []rig.Field{{Name: "Host", Value: t.Authority}, {Name: "Case-Id", Value: t.ID}}})
 	}
 	sp := specRoute(fc, hn, t)
-	ctx.Case(fmt.Sprintf("%+v|%s|%v|%+v", one.Route, one.LocalMode, one.MITM, *t), fc.Route.Base != "none" && fc.Route.Base != "" || one.NGen > 0)
+	key := fmt.Sprintf("%+v|%s|%v|%+v", one.Route, one.LocalMode, one.MITM, *t)
+	if one.Env != "" || one.Hosts != "" {
+		key += "|" + one.Env + "|" + one.Hosts
+	}
+	ctx.Case(key, fc.Route.Base != "none" && fc.Route.Base != "" || one.NGen > 0 || one.Env != "" || one.Hosts != "")
 	ctx.Count("base/" + fc.Route.Base)
 	ctx.Count("kind/" + t.Kind)
 	ctx.Count("local-mode/" + one.LocalMode)
@@ -370,10 +422,25 @@ func evaluate(ctx *core.Ctx, h *hops, fc *reqmodel.FullCfg, one oneTarget, t *ta
 		ctx.Count("seq/reused-client-connection/" + t.Kind)
 	}
 	// the hosts-file aliases of loopback addresses
-	for _, a := range hostsAliases.own {
-		if strings.EqualFold(a, hn) && !strings.EqualFold(a, "localhost") {
-			ctx.Count("target/hosts-file-alias/" + one.LocalMode)
+	if len(fc.Base.LocalNames) > 3 {
+		for _, a := range fc.Base.LocalNames[3:] {
+			if a == strings.ToLower(hn) && a != "localhost" {
+				ctx.Count("target/hosts-file-alias/" + one.LocalMode)
+				if one.Hosts != "" {
+					ctx.Count("target/generated-hosts-file-alias/" + one.LocalMode)
+					if a != hn {
+						ctx.Count("target/generated-hosts-file-alias-in-another-case/" + one.LocalMode)
+					}
+				}
+				break
+			}
 		}
+	}
+	if one.Hosts != "" {
+		ctx.Count("generated-hosts-file")
+	}
+	if one.Env != "" {
+		ctx.Count("environment/" + one.Env + "/base=" + fc.Route.Base)
 	}
 	if fc.Route.DirectSet {
 		ctx.Count("direct-domains-set")
@@ -468,6 +535,15 @@ func evaluate(ctx *core.Ctx, h *hops, fc *reqmodel.FullCfg, one oneTarget, t *ta
 			return withDefaultPort(t.Authority, "443")
 		}
 		return withDefaultPort(t.Authority, "80")
+	}
+	if child != nil {
+		for _, d := range ob.Dials {
+			if child.isSink(d.Pre) || child.isSink(d.Post) {
+				ctx.SpecFail("routing is decided by the configuration alone: a proxy named by the process environment (HTTP_PROXY / HTTPS_PROXY / ALL_PROXY, in either case) is never contacted", "",
+					one, impl, fmt.Sprintf("dialled %s -> %s, the proxy of environment %q", d.Pre, d.Post, one.Env))
+				break
+			}
+		}
 	}
 	switch sp.Kind {
 	case "skip":
